@@ -37,6 +37,14 @@ CHECKS = {
             "Discrete identities (div curl = 0, div-free recovered velocity, wide Laplacian, update == library curl, "
             "penalised == forcing of difference) tested as exact equalities on drawn rational blocks; compiled "
             "counterpart through the public 3-D simulator.", "3/C12", ""),
+    "C13": (True, "Hypothesis over a registry of all 50 public kernel generators x options x shapes x memory layouts, sentinel-prefilled outputs vs closed-form numpy references",
+            "Every generator/option entry gets its own Hypothesis run (stratified): documented value inside the documented "
+            "region within a stated tolerance, bit-identity outside it, inputs and memory around strided/sub-block/transposed "
+            "views bit-identical; enumeration that every public generator has an entry.", "3/C13", ""),
+    "C15": (True, "Exhaustive IR dependence rules over every generated kernel + Hypothesis scenarios under a call-site aliasing monitor with harness-owned permuted replay + bit-identity across drawn OpenMP thread counts",
+            "Clause (a) enumerates all kernels generated in the run (exhaustive for that finite set); clause (b) inspects every "
+            "kernel invocation of generated simulator/solver/filter/RK/interaction scenarios for output/input aliasing and replays "
+            "it cell by cell in different orders; clause (c) samples real thread counts {1,2,3,5,8,16}.", "3/C15", ""),
 }
 
 NOT_BUILT_REASON = "check not built yet (work in progress in this session; will be claimed once its generated check is registered)"
